@@ -166,7 +166,36 @@ def _init(ck, fx):
             for x, _ in __import__("engine.facts", fromlist=["walk"]).walk(n["args"][0]):
                 if x.get("k") == "MethodCall" and x["name"] in ("is_slot", "is_method"):
                     filt.append(x["name"])
-    ck.ob("R5.init", "slots → variables, methods → functions", sorted(filt) == ["is_method", "is_slot"], loc(b), "global partition predicates: %s" % filt)
+    if sorted(filt) != ["is_method", "is_slot"]:
+        # decided on the paths instead: a pass over the program's globals contributes an element to a collection only
+        # under `is_slot` (the variables) resp. `is_method` (the functions); `.filter(p)` and `if p { v.push(..) }` alike
+        gates = []
+        for p in oks[:1]:
+            for e in V._all_effects(p["eff"]):
+                if e["k"] != "foreach":
+                    continue
+                contributing, idle = set(), set()
+                for q in e.get("paths", []):
+                    def _g(c):
+                        t = fmt_term(c["args"][0])
+                        el = fmt_term(e.get("elem")) if e.get("elem") else "?"
+                        return {g for g, v in (("is_slot", "Slot"), ("is_method", "Method")) if (g + "(" in t or ("is_variant(" in t and ", '%s')" % v in t)) and el in t}
+                    gate_t = {g for c in q["eff"] if c["k"] == "assume" and c["args"][1] == TRUE for g in _g(c)}
+                    gate_f = {g for c in q["eff"] if c["k"] == "assume" and c["args"][1] != TRUE for g in _g(c)}
+                    gives = (q["out"][0] == "val" and e.get("driver") == "collect" and q["out"][1] != ("lit", None)) or any(c["k"] == "call" and V.suffix(c) == "push" for c in q["eff"])
+                    if not (gate_t or gate_f):
+                        continue
+                    if gives:
+                        contributing |= gate_t if gate_t else {"(ungated)"}
+                    else:
+                        idle |= gate_f
+                if contributing:
+                    gates.append((sorted(contributing), sorted(idle)))
+        sem_ok = sorted(g[0][0] for g in gates if len(g[0]) == 1) == ["is_method", "is_slot"] and len(gates) == 2 and all(
+            (not idle) or idle == c for c, idle in gates)
+        ck.ob("R5.init", "slots → variables, methods → functions", sem_ok, loc(b), "passes over the globals contribute under: %s" % gates)
+    else:
+        ck.ob("R5.init", "slots → variables, methods → functions", True, loc(b), "global partition predicates: %s" % filt)
 
 
 def _agnostic(ck, fx, cg):
@@ -219,7 +248,7 @@ def _call_object_method(ck, fx):
             R.need(ra is not None and ra[0] == "sym" and ra[2] == "ip_after_bump", "return address is not the instruction after the call")
         if ip:
             R.need(ip[0]["val"] == ("some", V.fld(("app", "proj", (("var", "method"), lit("Method"), lit("code"))), "start")), "ip is not set to the method's start address")
-        R.need(any("ne(len(argument_pointers)" in fmt_term(c) and not val for c, val in V.assumes(p["eff"])), "R5.arity: argument count is not compared with the method's parameter count")
+        R.need(V.assumed(p["eff"], "ne(len(argument_pointers)", False), "R5.arity: argument count is not compared with the method's parameter count")
         ck.ob("R5.op", name + ("|path%d" % i if i else ""), not R.problems, evs[0]["at"] if evs else "", "conforms to the S1 row (user method call)" if not R.problems else "; ".join(R.problems))
 
 
